@@ -24,13 +24,14 @@ def post(lines, verdicts):
     if len(sk) > max(3, len(e) // 50):
         out.append(("diff", sk[0], "diff e2e tie not exercised: %d of %d E scenarios could not run (%s)"
                     % (len(sk), len(e), sk[0].split("|", 1)[1].strip()[:80])))
-    # the runner emits a FIXED 30 T, 5 B, 9 C, 12 E cases for every seed (quick); E tolerates 3 skip-env
+    # the runner emits a FIXED 33 T, 5 B, 9 C, 12 E cases for every seed (quick); E tolerates 3 skip-env
     floors = {"T": 25, "B": 4, "C": 8, "E": 8}
     for k, n in floors.items():
         have = [ln for ln in _kind(lines, k) if "| skip-env" not in ln]
         if len(have) < n:
             out.append(("diff", k, "diff tie not exercised: %d cases of kind %s, floor %d" % (len(have), k, n)))
     # what the evidence claims must have happened: contention, all three arms of compute_next, re-sent frames
+    # met by the three FIXED 16/16/8-thread yield_now cases alone, also on one starved core (measured there: 65 959)
     if _metric(verdicts, lines, "T", "cross_adjacent") < 10000:
         out.append(("diff", "T", "diff tie not exercised: fewer than 10000 values adjacent across threads (no contention)"))
     for arm in ("ahead", "plus1", "preepoch"):
@@ -70,10 +71,11 @@ SPEC = {
     "extra_coverage": extra_coverage,
     "min_cases": {"quick": 50, "thorough": 300},
     "nontrivial": lambda ln: "| skip-env" not in ln,
-    "rule": ("the runner emits a FIXED number of cases of every kind for every seed (30 T, 5 B, 9 C, 12 E quick / 60 E thorough) "
+    "rule": ("the runner emits a FIXED number of cases of every kind for every seed (33 T, 5 B, 9 C, 12 E quick / 60 E thorough) "
              "and adds seeded ones up to --n calls. T = one real MonotonicTimestampGenerator (without warnings / default / "
              "with_warning_times(1 us, 0)) shared by 2..16 OS threads x 100..65000 calls; paces 0-3 tight loop, random spins, "
-             "yield_now, staggered bursts; 4 two phases around a barrier (phase_ok, C18_call_order); 5 tick sweep: all threads "
+             "yield_now (three FIXED 16/16/8-thread x 3000-call cases of this pace carry the contention floor: they interleave threads even on one "
+             "starved core), staggered bursts; 4 two phases around a barrier (phase_ok, C18_call_order); 5 tick sweep: all threads "
              "released together by a spin barrier at -400..+400 ns around the microsecond tick, 3 calls each, again and again; "
              "6/7 a SCRIPTED clock shared by all threads (this binary defines clock_gettime: the reading stalls for 4/32 reads, "
              "steps backwards, is sometimes before the epoch); every value each thread was handed plus one call after the join "
@@ -102,8 +104,10 @@ SPEC = {
     "assumptions": [
         "scripted clock: the harness binary defines the C symbol clock_gettime (std's SystemTime::now resolves to it at "
         "static link time); CLOCK_REALTIME readings are scripted, all other clocks are forwarded to libc via dlsym(RTLD_NEXT)",
-        "overflow guard of every C18 theorem: all clock readings (as i64) <= B and B + N*M < i64::MAX "
-        "(C18_overflow_witness shows the model wraps to i64::MIN without it; in Rust: panic or wrap)",
+        "overflow guard of every schedule theorem (C18_inv, C18_cas_step, C18_distinct, C18_thread_mono, C18_call_order, "
+        "C18_model_accepted): all clock readings (as i64) <= B and B + N*M < i64::MAX (C18_overflow_witness shows the model wraps "
+        "to i64::MIN without it; in Rust: panic or wrap); C18_compute_next_gt, C18_warn_sub_safe and the acceptor theorems carry "
+        "their own bounds (0 <= last < i64::MAX resp. <= i64::MAX, readings below 2^63 us, 0 <= t0, t1 <= i64::MAX)",
         "of the warning branch of compute_next only the i64 subtraction `last - u_cur` is modelled (compute_next_checked: "
         "panic under overflow checks for a reading >= 2^63 us, C18_warn_sub_safe otherwise); the last_warning mutex, the "
         "interval test and the log line are not; the harness is built with overflow-checks = true",
